@@ -18,6 +18,7 @@ def make_plan(seed: int, tier: str, opts: dict) -> dict:
     spec = common.gen_supported_spec(r, max_nodes=opts.get("max_nodes", 4))
     for nd in spec["nodes"]:
         nd["jit"] = r.random() < 0.6  # more eager nodes than elsewhere: "jit on/off per node" is in the quantifier
+    fast = False
     if r.random() < opts.get("fast_sink_p", 0.15):
         from simrex import spec as _sp2
 
@@ -25,6 +26,7 @@ def make_plan(seed: int, tier: str, opts: dict) -> dict:
         _sp2.add_fast_sinks(s3, r)
         if _sp2.in_S(s3) is None:
             spec = s3
+            fast = True
     n_eps = r.choice([1, 2, 2, 3])
     eps = [driver.gen_episode(r, j, open_loop=spec["open_loop"], nsteps=r.randint(2, opts.get("max_steps", 8)), endings=("stop", "stop2", "none"), override_p=0.4) for j in range(n_eps)]
     eps[-1]["ending"] = "stop"
